@@ -30,6 +30,67 @@ def sign_atom(a):
     return isinstance(a, tuple) and a[0] == 'cast' and 'sign_corrections' in show(a, maxdepth=6)
 
 
+def _link_poses_by_interpretation(prog, fwp):
+    """[term of link pose 1..6] from a symbolic run of forward_with_joint_poses (library calls opaque, arithmetic symbolic),
+    or None when the function cannot be interpreted or does not return six values"""
+    from .. import absint
+    from ..absint import Interp, Sym, Iv
+    me = {'#adt': 'kinematics_impl::OPWKinematics'}
+    adt = prog.adts.get('kinematics_impl::OPWKinematics')
+    for f in (adt['variants'][0]['fields'] if adt else []):
+        me[f['name']] = Sym(('self', f['name']))
+    I = Interp(prog, {}, fuel=200000, max_paths=8)
+    I.symbolic, I.oracle = True, (lambda o, a, c: None)
+    try:
+        outs = I.run(fwp.path, [('refval', me, ()), ('refval', Sym('joints'), ())])
+    except (absint.Unsupported, absint.Undecided):
+        return None
+    if len(outs) != 1 or not isinstance(outs[0].ret, (tuple, list)) or len(outs[0].ret) != 6:
+        return None
+    jn = fwp.name_of(2)
+
+    def pose_level(x):
+        if isinstance(x, Sym) and isinstance(x.tag, tuple):
+            if x.tag and x.tag[0] == 'call' and any(w in str(x.tag[1]) for w in ('from_parts', 'Isometry', 'identity')):
+                return True
+            return any(pose_level(y) for y in x.tag)
+        return False
+
+    def conv(x):
+        if isinstance(x, Iv):
+            return ('const', 'f64', x.lo, None) if x.is_point() else ('opaque', repr(x))
+        if isinstance(x, bool) or isinstance(x, int):
+            return ('const', 'usize', x, None)
+        if isinstance(x, str):
+            return ('const', 'str', x, None)
+        if not isinstance(x, Sym):
+            return ('opaque', repr(x)[:60])
+        t = x.tag
+        if t == 'joints':
+            return ('param', 2, jn)
+        if isinstance(t, tuple) and t and t[0] == 'self':
+            return ('fld', ('param', 1, 'self'), t[1])
+        if isinstance(t, tuple) and t:
+            if t[0] == 'fld':
+                return ('fld', conv(t[1]), t[2])
+            if t[0] == 'idx':
+                return ('idx', conv(t[1]), conv(t[2]) if not isinstance(t[2], int) else ('const', 'usize', t[2], None))
+            if t[0] == 'bin':
+                if t[1] == 'Mul' and (pose_level(t[2]) or pose_level(t[3])):
+                    return ('call', 'std::ops::Mul::mul', conv(t[2]), conv(t[3]))
+                return ('bin', t[1], conv(t[2]), conv(t[3]))
+            if t[0] == 'neg':
+                return ('un', 'Neg', conv(t[1]))
+            if t[0] == 'cast':
+                return ('cast', conv(t[1]), 'f64')
+            if t[0] == 'deref':
+                return conv(Sym(t[1])) if not isinstance(t[1], Sym) else conv(t[1])
+            if t[0] == 'call':
+                return ('call', t[1]) + tuple(conv(a) for a in t[2:])
+        return ('opaque', repr(t)[:60])
+    return [conv(x) for x in outs[0].ret]
+
+
 def expected_q(joints_t, i):
     SELF = ('param', 1, 'self')
     p = ('fld', SELF, 'parameters')
@@ -237,8 +298,14 @@ def run(ctx):
 
     # ---- chain
     ret = strip(fwp.return_term())
-    ctx.require(isinstance(ret, tuple) and ret[0] == 'agg' and ret[1] == 'array' and len(ret) == 8, 'forward_with_joint_poses returns an array of six poses')
-    elems = [strip(inline(prog, util.peval(prog, x))) for x in ret[2:]]
+    elems = None
+    if not (isinstance(ret, tuple) and ret[0] == 'agg' and ret[1] == 'array' and len(ret) == 8):
+        # the six poses are not one literal (a table of links and a loop filling the array ..): the value of every element by
+        # symbolic interpretation of the function, written back as terms
+        elems = _link_poses_by_interpretation(prog, fwp)
+    ctx.require(elems is not None or (isinstance(ret, tuple) and ret[0] == 'agg' and ret[1] == 'array' and len(ret) == 8), 'forward_with_joint_poses returns an array of six poses')
+    if elems is None:
+        elems = [strip(inline(prog, util.peval(prog, x))) for x in ret[2:]]
     prev = None
     for k, e in enumerate(elems):
         key = 'link%d' % (k + 1)
